@@ -65,6 +65,10 @@ struct Scenario {
     /// never-true waits only: one extra thread keeps issuing wakes that cannot satisfy the wait (spurious wakes,
     /// wrong-file and non-advancing acks) every quarter deadline until the waiter returns, for at most 75 deadlines
     steady_unrelated_wakes: bool,
+    /// far-future waits: how far the deadline is (ms); drawn from classes incl. values just above multiples of 2^31 / 2^32 ms
+    far_ms: u64,
+    /// far-future waits: the signallers stay quiet this long after the waiter started (0 = start at once)
+    quiet_ms: u64,
 }
 
 struct SchedLog {
@@ -147,7 +151,20 @@ fn gen_scenario(r: &mut Rng, miri: bool) -> Scenario {
         }
         signallers.push(ops);
     }
+    // far-future deadline classes: what callers pass to mean "no timeout". A quiet start (nothing signalled for longer than the
+    // residue above a power-of-two number of milliseconds) shows a deadline that was truncated or wrapped on the way to the park.
+    let residue = 30 + r.below(90);
+    let quiet = !never_true && r.chance(1, if miri { 4 } else { 12 });
+    let far_ms = if quiet {
+        *r.pick(&[(1u64 << 32) + residue, (1u64 << 31) + residue, (1u64 << 33) + residue, 3 * (1u64 << 32) + residue, (1u64 << 32) * 1000 + residue, (1u64 << 42) + residue])
+    } else if miri {
+        1_000_000_000
+    } else {
+        *r.pick(&[600_000u64, 600_000, 86_400_000, (1u64 << 32) + residue, 10 * 365 * 86_400_000, 1u64 << 40])
+    };
     Scenario {
+        far_ms,
+        quiet_ms: if quiet { residue + 150 } else { 0 },
         kind: if reconnect { Kind::Reconnect } else { Kind::Credit { chunk } },
         window,
         unit,
@@ -179,7 +196,7 @@ fn run_scenario(s: &Scenario, miri: bool, hb: Option<&Heartbeat>) -> Outcome {
         ctl.record_sent((i + 1) * s.unit);
     }
     let log = Arc::new(SchedLog { clock: AtomicU64::new(0), ev: Mutex::new(vec![]) });
-    let far = if miri { Duration::from_secs(1_000_000) } else { Duration::from_secs(600) };
+    let far = Duration::from_millis(s.far_ms);
     let (tx, rx) = mpsc::channel::<(WaitRes, bool, Duration)>();
     let waiter_done = Arc::new(std::sync::atomic::AtomicBool::new(false));
     // waiter
@@ -190,8 +207,14 @@ fn run_scenario(s: &Scenario, miri: bool, hb: Option<&Heartbeat>) -> Outcome {
             CUR.with(|c| *c.borrow_mut() = Some(log));
             spin(s2.waiter_delay_spins);
             let start = Instant::now();
-            let dur = s2.short_deadline_ms.map(Duration::from_millis).unwrap_or(far);
-            let deadline = start + dur;
+            let mut dur = s2.short_deadline_ms.map(Duration::from_millis).unwrap_or(far);
+            let deadline = match start.checked_add(dur) {
+                Some(d) => d,
+                None => {
+                    dur = Duration::from_secs(600);
+                    start + dur
+                }
+            };
             let res = match s2.kind {
                 Kind::Credit { chunk } => match ctl.wait_for_credit(chunk, deadline) {
                     Ok(()) => WaitRes::Ok,
@@ -215,7 +238,11 @@ fn run_scenario(s: &Scenario, miri: bool, hb: Option<&Heartbeat>) -> Outcome {
     let mut hs = vec![];
     for ops in &s.signallers {
         let (ctl, log, ops, ops_log) = (ctl.clone(), log.clone(), ops.clone(), ops_log.clone());
+        let quiet_ms = s.quiet_ms;
         hs.push(std::thread::spawn(move || {
+            if quiet_ms > 0 {
+                std::thread::sleep(Duration::from_millis(quiet_ms));
+            }
             for (op, sp) in ops {
                 spin(sp);
                 let c = log.clock.fetch_add(1, Ordering::SeqCst);
